@@ -195,6 +195,19 @@ int main(void)
         __CPROVER_assert(getpath_log[i] == &hist_obj[i] && freefile_log[i] == &hist_obj[i], "C19: ... in processing order (and releases it)");
     __CPROVER_assert(freefile_n == nh, "C20: every history member is released once");
   }
+#elif PART == 5
+  /* the chain main() runs over --delimiters: every escape is translated, the others survive
+   * (from the second translation on the input of replace_str IS its static buffer) */
+  static char arg[] = "=\\t:\\f";          /* the 7 characters  = \ t : \ f  */
+  char *d = arg;
+  d = replace_str(d, "\\t", "\t");
+  d = replace_str(d, "\\f", "\f");
+  d = replace_str(d, "\\n", "\n");
+  d = replace_str(d, "\\r", "\r");
+  d = replace_str(d, "\\v", "\v");
+  __CPROVER_assert(d[0] == '=' && d[1] == '\t' && d[2] == ':' && d[3] == '\f' && d[4] == 0,
+                   "C19: every escape in --delimiters is translated and nothing else is lost");
+  int r = 0;
 #else
   /* replace_str: no write outside the static 1 KiB buffer; -DRLEN = length of the
    * --delimiters argument, -DRPOS = position of the escape (both concrete per job) */
